@@ -26,7 +26,7 @@ static const char *PW = "sesame";
 static unsigned char pw32[33];
 enum { K_DGRAMS, K_PROBES, K_ANSWERED, K_TUNW, K_PAIRS, K_TUNFRAMES, K_SAN = 20 };
 
-static struct sockaddr_storage A_ADDR, B_ADDR, X_ADDR, X6_ADDR, LOCALDNS; static socklen_t ALEN, A6LEN;
+static struct sockaddr_storage A_ADDR, B_ADDR, C_ADDR, X_ADDR, X6_ADDR, LOCALDNS; static socklen_t ALEN, A6LEN;
 static char cur_desc[200];
 static int cur_state;
 static const char *STATE_DESC[6] = { "only the probe session B exists", "A has sent a version request", "A is logged in", "A is logged in, lazy, with a held ping",
@@ -117,12 +117,24 @@ static void health_probe(void)
 	int tw = 0;
 	for (int i = 0; i < adv_nout; i++) if (adv_outs[i].kind == 3 && adv_outs[i].full_len == l && !memcmp(adv_outs[i].data, ip, l)) tw = 1;
 	if (!tw) { probe_failed = 1; viol("other-session-no-longer-served", "state '%s': session B's upstream packet is not delivered to the tun any more after a batch ending with: %s", STATE_DESC[cur_state], saved); return; }
-	/* 3. downstream packet: tun arrival for B, fetched with pings */
+	/* 3. downstream packet.  First fetch whatever hostile tun frames have queued up for B (the server drops new packets
+	 * for a session whose queue of four is full - that is its documented back-pressure, not a failure), then offer the
+	 * probe packet and fetch it */
+	{
+		int quiet = 0;
+		for (int tries = 0; tries < 4000 && quiet < 2; tries++) {
+			adv_clear();
+			n = tm_ping(pkt, ++b_id, 10, 0, b_dnseq, b_dnfrag, b_cmc++, DOM);
+			adv_send(&B_ADDR, ALEN, pkt, n);
+			k = b_answer(&pl, &m);
+			if (k > 2 && (pl[0] & 0x80)) { b_dnseq = (pl[1] >> 5) & 7; b_dnfrag = (pl[1] >> 1) & 15; quiet = 0; } else quiet++;
+		}
+	}
 	l = tm_ippkt(ip, 40, 0xC0A80101u, 0x0A000002, 8000 + b_cmc);
 	adv_clear();
 	adv_tun_in(ip, l);
 	int got = 0;
-	for (int tries = 0; tries < 200 && !got; tries++) {     /* earlier tun frames for B may be queued ahead (up to 5 packets, many fragments) */
+	for (int tries = 0; tries < 60 && !got; tries++) {
 		/* a data answer may already have gone out on the previous query; otherwise ask */
 		k = b_answer(&pl, &m);
 		if (k > 2 && (pl[0] & 0x80)) {
@@ -138,6 +150,25 @@ static void health_probe(void)
 	adv_clear(); n = tm_ping(pkt, ++b_id, 10, 0, b_dnseq, b_dnfrag, b_cmc++, DOM); adv_send(&B_ADDR, ALEN, pkt, n);
 	if (!got) { probe_failed = 1; viol("other-session-no-longer-served", "state '%s': a tun packet for session B is not delivered any more after a batch ending with: %s", STATE_DESC[cur_state], saved); }
 	adv_clear();
+}
+
+/* session C: fetch whatever the server has queued for it (every fragment acknowledged), like a client would */
+static int c_slot, c_cmc, c_dnseq, c_dnfrag;
+static void drain_c(int maxq)
+{
+	static rd_msg m; const uint8_t *pl; uint8_t pkt[800];
+	for (int i = 0; i < maxq && vw_alive(0); i++) {
+		adv_clear();
+		int n = tm_ping(pkt, 0x7800 + i, 10, c_slot, c_dnseq, c_dnfrag, c_cmc++, DOM);
+		adv_send(&C_ADDR, ALEN, pkt, n);
+		after_delivery();
+		int got = 0;
+		for (int k = 0; k < adv_nout; k++) if (adv_outs[k].kind == 0 && vw_addr_eq(&adv_outs[k].dst, &C_ADDR)) {
+			int l = tm_null_payload(adv_outs[k].data, adv_outs[k].len, &pl, &m);
+			if (l > 2 && (pl[0] & 0x80)) { c_dnseq = (pl[1] >> 5) & 7; c_dnfrag = (pl[1] >> 1) & 15; got = 1; }
+		}
+		if (!got && i > 1) break;
+	}
 }
 
 /* ---------------------------------------------------------------- booting a state */
@@ -171,6 +202,16 @@ static void boot(int state)
 	adv_boot(&c, 1, 1);
 	login(&B_ADDR, 0, 1);
 	if (state >= 1) seedA = login(&A_ADDR, 1, state >= 2);
+	{
+		/* session C (next free slot): the largest fragment size a client can ask for, lazy, with a held ping */
+		int cslot = state >= 1 ? 2 : 1;
+		login(&C_ADDR, cslot, 1);
+		int n = tm_setfrag(pkt, 0x740, 10, cslot, 65535, 0x78, DOM); adv_send(&C_ADDR, ALEN, pkt, n);
+		n = tm_short(pkt, 0x741, 10, 'o', tm_5to8(cslot), 'l', 0x79, DOM); adv_send(&C_ADDR, ALEN, pkt, n);
+		n = tm_ping(pkt, 0x742, 10, cslot, 0, 0, 0x2222, DOM); adv_send(&C_ADDR, ALEN, pkt, n);
+		c_slot = cslot; c_cmc = 0x5000; c_dnseq = c_dnfrag = 0;
+		if (s_w_users()[cslot].fragsize != 65535) vw_fatal("C05 boot: session C did not get its fragment size");
+	}
 	if (state == 3) {
 		int n = tm_short(pkt, 0x730, 10, 'o', tm_5to8(1), 'l', 0x77, DOM); adv_send(&A_ADDR, ALEN, pkt, n);
 		n = tm_ping(pkt, 0x731, 10, 1, 0, 0, 0x1111, DOM); adv_send(&A_ADDR, ALEN, pkt, n);
@@ -391,10 +432,48 @@ static void fam_raw(void)
 			deliver(&A_ADDR, buf, LENS[k], "raw frame command nibble %d user nibble %d, %d bytes", cmd, u, LENS[k]); tick();
 		}
 	}
+	/* raw data of A (user nibble 1) relayed to other sessions: incompressible inner packets of many sizes */
+	{
+		static unsigned char ip[70000], z[70100];
+		static const int SZ[] = { 100, 1500, 4000, 4080, 4090, 4096, 4200, 6000, 9000 };
+		uint32_t cip = 0x0A000002 + c_slot;
+		for (unsigned k = 0; k < sizeof SZ / sizeof SZ[0]; k++) for (int dst = 0; dst < 3; dst++) {
+			unsigned x = 2463534242u + SZ[k];
+			for (int i = 0; i < SZ[k]; i++) { x ^= x << 13; x ^= x >> 17; x ^= x << 5; ip[i] = x; }
+			ip[0] = ip[1] = 0; ip[2] = 8; ip[3] = 0; ip[4] = 0x45;
+			uint32_t d = dst == 0 ? cip : dst == 1 ? 0x0A000002 : 0xC0A80101u;
+			ip[20] = d >> 24; ip[21] = d >> 16; ip[22] = d >> 8; ip[23] = d;
+			int zl = tm_compress(ip, SZ[k], z, sizeof z);
+			int n = tm_raw(buf, 0x20, 1, z, zl);
+			deliver(&A_ADDR, buf, n, "raw data of A: %d-byte incompressible packet (%d compressed) for %s", SZ[k], zl, dst == 0 ? "session C (fragment size 65535)" : dst == 1 ? "session B" : "the server's tun");
+			if (dst == 0) drain_c(40);
+			tick();
+		}
+	}
 	/* raw data with valid / inflating payloads for every user nibble */
 	static unsigned char big[66000]; memset(big, 0, sizeof big); big[2] = 8; big[4] = 0x45;
 	unsigned char zbig[1000]; int zbl = tm_compress(big, 66000, zbig, sizeof zbig);
 	for (int u = 0; u < 16; u++) { int n = tm_raw(buf, 0x20, u, zbig, zbl); deliver(&A_ADDR, buf, n, "raw data for user nibble %d inflating to 66000 bytes", u); tick(); }
+}
+
+static void fam_tun_big(void)
+{
+	/* incompressible frames for the session with the huge fragment size, and for the probe session */
+	static unsigned char f[70000];
+	static const int SZ[] = { 1500, 4000, 4090, 4092, 4094, 4096, 4098, 4100, 4200, 5000, 8190, 8200, 20000, 65535 };
+	uint32_t cip = 0x0A000002 + c_slot;
+	for (unsigned k = 0; k < sizeof SZ / sizeof SZ[0]; k++) for (int dst = 0; dst < 2; dst++) {
+		unsigned x = 88172645u + SZ[k];
+		for (int i = 0; i < SZ[k]; i++) { x ^= x << 13; x ^= x >> 17; x ^= x << 5; f[i] = x; }
+		f[0] = f[1] = 0; f[2] = 8; f[3] = 0; f[4] = 0x45;
+		uint32_t d = dst ? 0x0A000002 : cip;
+		f[20] = d >> 24; f[21] = d >> 16; f[22] = d >> 8; f[23] = d;
+		snprintf(cur_desc, sizeof cur_desc, "incompressible tun frame of %d bytes for session %s", SZ[k], dst ? "B (fragment size 100)" : "C (fragment size 65535)");
+		deliver_tun(f, SZ[k], "%s", cur_desc);
+		char keep[200]; snprintf(keep, sizeof keep, "%s, then fetched by its session", cur_desc);
+		if (!dst) { snprintf(cur_desc, sizeof cur_desc, "%s", keep); drain_c(40); }
+		tick();
+	}
 }
 
 static void fam_tun(void)
@@ -458,7 +537,7 @@ static void job(int j)
 	case 7: fam_commands_types(); break;
 	case 8: fam_data(); break;
 	case 9: fam_raw(); break;
-	case 10: fam_tun(); break;
+	case 10: fam_tun(); fam_tun_big(); break;
 	case 11: fam_pairs(); break;
 	}
 	alarm(20);
@@ -475,7 +554,7 @@ int main(int argc, char **argv)
 	hc_args a = hc_parse(argc, argv, "C05");
 	thorough = a.thorough;
 	memset(pw32, 0, sizeof pw32); strcpy((char *)pw32, PW);
-	vw_mkaddr(&A_ADDR, &ALEN, "198.51.100.7", 4000); vw_mkaddr(&B_ADDR, &ALEN, "198.51.100.8", 4001); vw_mkaddr(&X_ADDR, &ALEN, "203.0.113.9", 4999);
+	vw_mkaddr(&A_ADDR, &ALEN, "198.51.100.7", 4000); vw_mkaddr(&B_ADDR, &ALEN, "198.51.100.8", 4001); vw_mkaddr(&C_ADDR, &ALEN, "198.51.100.9", 4003); vw_mkaddr(&X_ADDR, &ALEN, "203.0.113.9", 4999);
 	vw_mkaddr6(&X6_ADDR, &A6LEN, "2001:db8::99", 4002); vw_mkaddr(&LOCALDNS, &ALEN, "127.0.0.1", 5353);
 	SRCS[0] = &X_ADDR; SRCS[1] = &A_ADDR; SRCS[2] = &X6_ADDR;
 	{ const struct encoder *e[4] = { &s_base32_ops, &s_base64_ops, &s_base64u_ops, &s_base128_ops }; for (int k = 0; k < 4; k++) ref_calibrate(k, e[k]->encode); }
